@@ -4,6 +4,7 @@ package main
 
 import (
 	"fmt"
+	"go/constant"
 	"go/token"
 	"go/types"
 	"sort"
@@ -207,6 +208,12 @@ func (c *c02ctx) r2Asserts() {
 						}
 					}
 				}
+			}
+			// (d) s[idx].F asserted to T where idx = slices.IndexFunc(s, pred) is known non-negative and pred answers true
+			// only after its own comma-ok assertion of the element's field F to T succeeded
+			if why, ok := selectedByPredicate(ta); ok {
+				r.OK("C02.R2", key, ta.Pos(), "%s", why)
+				return
 			}
 			r.Bad("C02.R2", key, ta.Pos(), "unchecked type assertion to %s on a value whose dynamic type is chosen by the input (%s): a crafted message panics", ta.AssertedType, k)
 		})
@@ -1180,6 +1187,17 @@ func (c *c02ctx) r4Indexing() {
 						return
 					}
 				}
+				// the result of a -1-sentinel search over the indexed slice itself, used where it is known non-negative
+				if call, ok := unspill(idx).(*ssa.Call); ok && len(call.Call.Args) >= 1 && sameSlice(call.Call.Args[0], x) {
+					if lb, how, ok := indexLowerBound(idx, in.Block()); ok {
+						if lb >= 0 {
+							r.OK("C02.R4", key, pos, "index is the %s over the indexed slice, used only where it is >= %d: within bounds", how, lb)
+						} else {
+							r.Bad("C02.R4", key, pos, "index is the %s and may be -1 here: input without the searched element panics (index out of range)", how)
+						}
+						return
+					}
+				}
 				r.Unk("C02.R4", key, pos, "index expression of %s not understood", describeVal(x))
 				return
 			}
@@ -2123,4 +2141,112 @@ func arrayLenOf(x ssa.Value) int64 {
 		return a.Len()
 	}
 	return 0
+}
+
+// selectedByPredicate: ta asserts s[idx].F (no comma-ok) where idx is the non-negative result of
+// slices.IndexFunc(s, pred) and every true answer of pred is the ok of a comma-ok assertion of its parameter's
+// field F to the same type (or is dominated by that ok being true).
+func selectedByPredicate(ta *ssa.TypeAssert) (string, bool) {
+	ld, ok := unspill(ta.X).(*ssa.UnOp)
+	if !ok || ld.Op != token.MUL {
+		return "", false
+	}
+	fa, ok := ld.X.(*ssa.FieldAddr)
+	if !ok {
+		return "", false
+	}
+	ia, ok := fa.X.(*ssa.IndexAddr)
+	if !ok {
+		return "", false
+	}
+	call, ok := unspill(ia.Index).(*ssa.Call)
+	if !ok || len(call.Call.Args) != 2 || !sameSlice(call.Call.Args[0], ia.X) {
+		return "", false
+	}
+	if id := callID(&call.Call); id.pkg != "slices" || id.name != "IndexFunc" {
+		return "", false
+	}
+	if lb, _, ok := indexLowerBound(ia.Index, ta.Block()); !ok || lb < 0 {
+		return "", false
+	}
+	var pred *ssa.Function
+	switch f := call.Call.Args[1].(type) {
+	case *ssa.MakeClosure:
+		pred, _ = f.Fn.(*ssa.Function)
+	case *ssa.Function:
+		pred = f
+	}
+	if pred == nil || pred.Blocks == nil || len(pred.Params) != 1 {
+		return "", false
+	}
+	// the comma-ok assertions of param.F to T inside pred
+	isProbe := func(v ssa.Value) bool {
+		ex, ok := v.(*ssa.Extract)
+		if !ok || ex.Index != 1 {
+			return false
+		}
+		pt, ok := ex.Tuple.(*ssa.TypeAssert)
+		if !ok || !pt.CommaOk || !types.Identical(pt.AssertedType, ta.AssertedType) {
+			return false
+		}
+		// operand: the field F of the parameter (by value: Field; by address: load of FieldAddr of the spilled param)
+		switch x := unspill(pt.X).(type) {
+		case *ssa.Field:
+			return x.Field == fa.Field && unspill(x.X) == ssa.Value(pred.Params[0])
+		case *ssa.UnOp:
+			if f2, ok := x.X.(*ssa.FieldAddr); ok && f2.Field == fa.Field {
+				if al, ok := f2.X.(*ssa.Alloc); ok {
+					for _, ref := range *al.Referrers() {
+						if st, ok := ref.(*ssa.Store); ok && st.Addr == ssa.Value(al) && st.Val == ssa.Value(pred.Params[0]) {
+							return true
+						}
+					}
+				}
+				return f2.X == ssa.Value(pred.Params[0])
+			}
+		}
+		return false
+	}
+	var okVal func(v ssa.Value, at *ssa.BasicBlock, depth int) bool
+	okVal = func(v ssa.Value, at *ssa.BasicBlock, depth int) bool {
+		if depth > 4 {
+			return false
+		}
+		if k, ok := v.(*ssa.Const); ok && k.Value != nil && k.Value.Kind() == constant.Bool {
+			if !constant.BoolVal(k.Value) {
+				return true
+			}
+			for _, dc := range dominatingConds(at) {
+				if dc.outcome && isProbe(dc.cond) {
+					return true
+				}
+			}
+			return false
+		}
+		if isProbe(v) {
+			return true
+		}
+		if ph, ok := v.(*ssa.Phi); ok {
+			for i, e := range ph.Edges {
+				if !okVal(e, ph.Block().Preds[i], depth+1) {
+					return false
+				}
+			}
+			return true
+		}
+		return false
+	}
+	for _, b := range pred.Blocks {
+		if len(b.Instrs) == 0 {
+			continue
+		}
+		ret, ok := b.Instrs[len(b.Instrs)-1].(*ssa.Return)
+		if !ok {
+			continue
+		}
+		if len(ret.Results) != 1 || !okVal(ret.Results[0], b, 0) {
+			return "", false
+		}
+	}
+	return "the element was selected by slices.IndexFunc with a predicate that answers true only when its own comma-ok assertion of the same field to " + typeName(ta.AssertedType) + " succeeded, and the index is known non-negative here", true
 }
